@@ -231,6 +231,120 @@ Proof.
     + cbn [cbounds csep cpost mkcf]. rewrite <- (hi_of_erase K V). exact Hrng.
 Qed.
 
+(* F6: the block and its lemma for the NEW separator choice (first separator only ever lowered: sep' is
+   key if index = 0 and key < sep, else sep).  ins_child_blk2 is convertible with the InsWantChild case of blk. *)
+Definition ins_child_blk2 (order : nat) (o : cop) (p c : id) (index : nat) (t : itree) l0 fr tm0 : res out :=
+  let key := key_of o in
+  match Conc.find p t, Conc.find c t with
+  | Some (INode pi cs), Some child =>
+    '(sep, _) <- get_nth index cs ;;
+    sep' <- Ok (if index =? 0 then (if ltb key sep then key else sep) else sep) ;;
+    match isplit order fr child with
+    | None =>
+      t' <- upd p (fun _ => Ok (INode pi (set_nth index (sep', child) cs))) t ;;
+      ins_descend ltb o c t' (unlock p l0) fr tm0
+    | Some (lft, rgt) =>
+      rs <- ismallest rgt ;;
+      t' <- upd p (fun _ => Ok (INode pi (ins_nth (index + 1) (rs, rgt) (set_nth index (sep', lft) cs)))) t ;;
+      if ltb key rs then ins_descend ltb o c t' (unlock p l0) (S fr) tm0
+      else mk t' l0 (S fr) tm0 (InsWantSplitRight o p c fr) []
+    end
+  | _, _ => Panic PIndex end.
+
+
+Lemma ins_child_shape2 order (o : cop) p c index (t : itree) l0 fr tm0 (out : out) :
+  2 <= order -> Nat.even order = true ->
+  shape order t -> NoDup (ids t) -> Forall (fun i => i < fr) (ids t) ->
+  pc_ok_b ltb order t (InsWantChild o p c index) = true ->
+  ins_child_blk2 order o p c index t l0 fr tm0 = Ok out -> shape order (otr out).
+Proof.
+  intros H2 Hev Hsh Hnd Hlt Hpc H. unfold ins_child_blk2 in H. cbn [pc_ok_b] in Hpc.
+  destruct (Conc.find p t) as [[?|pi cs]|] eqn:Hfp; try discriminate Hpc.
+  apply andb_true_iff in Hpc. destruct Hpc as [Hpc Hrange].
+  apply andb_true_iff in Hpc. destruct Hpc as [Hpc Hnth].
+  apply andb_true_iff in Hpc. destruct Hpc as [Hlen Hsearch].
+  apply Nat.ltb_lt in Hlen.
+  destruct (search_le ltb (key_of o) (map fst cs)) as [ix|] eqn:Hse; [|discriminate Hsearch].
+  simpl in Hsearch. apply Nat.eqb_eq in Hsearch. subst ix.
+  destruct (nth_error cs index) as [[s0 ch]|] eqn:Hn; [|discriminate Hnth]. apply Nat.eqb_eq in Hnth.
+  destruct (nth_error_split cs index Hn) as (pre & post & -> & Hlpre).
+  assert (Hfc : Conc.find c t = Some ch).
+  { subst c. eapply FrameRel.find_child; eauto. apply in_or_app; right; left; reflexivity. }
+  rewrite Hfc in H.
+  destruct (find_in_range K V ltb p t _ fr (key_of o) Hnd Hlt Hfp Hrange) as (C & -> & Hw & Hp & Hk).
+  cbn [nid] in Hp. subst pi.
+  rewrite <- Hlpre in H. rewrite get_nth_app in H. cbn [bind] in H.
+  cbn [bind] in H.
+  set (sep' := if length pre =? 0 then (if ltb (key_of o) s0 then key_of o else s0) else s0) in *.
+  assert (Esep' : new_sep2 ltb (key_of o) (length (erase_cs pre)) s0 = sep').
+  { unfold new_sep2. rewrite erase_cs_length. reflexivity. }
+  assert (Hupd : forall cs2, upd p (fun _ => Ok (INode p cs2)) (plug C (INode p (pre ++ (s0, ch) :: post)))
+                             = Ok (plug C (INode p cs2))).
+  { intros cs2. apply (upd_plug_self K V C _ fr _ Hw). }
+  destruct (shape_ctx K V ltb HS order C _ Hsh) as (d0 & Hok & Hrep).
+  rewrite erase_node, erase_cs_app, erase_cs_cons in Hok.
+  destruct (frame_down K V ltb HS order _ d0 _ _ _ _ Hok) as (d & -> & Hokc & _).
+  assert (Ha : asc ltb (map fst (erase_cs pre ++ (s0, erase_ids ch) :: erase_cs post))) by apply Hok.
+  assert (Hne : erase_cs pre ++ (s0, erase_ids ch) :: erase_cs post <> []) by (destruct (erase_cs pre); discriminate).
+  destruct (search_le_split K ltb HS (key_of o) _ Ha Hne)
+    as (ix & pre' & s' & c' & post' & Hs' & Hsplit & Hl' & _ & Hpost' & Hidx').
+  rewrite <- erase_cs_cons, <- erase_cs_app, erase_cs_fst, Hse in Hs'. inversion Hs'; subst ix; clear Hs'.
+  destruct (app_cons_inj _ _ _ _ _ _ Hsplit) as (<- & E1 & <-); [rewrite erase_cs_length; lia|].
+  inversion E1; subst s' c'; clear E1 Hsplit.
+  assert (Hidx : 0 < length (erase_cs pre) -> ltb (key_of o) s0 = false).
+  { rewrite erase_cs_length. intros Hpos. apply Hidx'. lia. }
+  assert (Hcapc : icap order ch) by apply Hokc.
+  destruct (isplit order fr ch) as [[lft rgt]|] eqn:Hisp.
+  - (* split *)
+    destruct (maybe_split order (erase_ids ch)) as [[el er]|] eqn:Esp;
+      [|rewrite (isplit_none K V order fr ch Esp) in Hisp; discriminate Hisp].
+    destruct (isplit_some K V order fr ch el er Hev Hcapc Esp)
+      as (lft' & rgt' & Hisp' & Hel & Her & Hnl & Hnr & Hperm & Hlk & Hcl & Hcr).
+    rewrite Hisp in Hisp'. inversion Hisp'; subst lft' rgt'; clear Hisp'. subst el er.
+    destruct (ismallest rgt) as [rs|] eqn:Ers; [|discriminate H]. cbn [bind] in H.
+    rewrite set_nth_app, ins_nth_app1, Hupd in H. cbn [bind] in H.
+    assert (Ers' : smallest (erase_ids rgt) = Ok rs) by (rewrite ismallest_erase; exact Ers).
+    assert (Hlen' : length (erase_cs pre ++ (s0, erase_ids ch) :: erase_cs post) < order).
+    { rewrite <- erase_cs_cons, <- erase_cs_app, erase_cs_length. exact Hlen. }
+    destruct (child_split2 K V ltb HS order _ d _ _ _ _ _ Hok Hk Hidx Hpost' sep' Esep' _ _ rs H2 Hev Hlen' Esp Ers')
+      as (Hok2 & Hcl2 & Hcr2 & Hrng).
+    set (N2 := INode p (pre ++ (sep', lft) :: (rs, rgt) :: post)) in *.
+    assert (HwN : wfc C N2 (S fr)).
+    { eapply (wfc_replace K V C _ N2 fr (S fr) [fr]); [exact Hw| |repeat constructor; simpl; tauto| |lia].
+      - unfold N2. rewrite !ids_node, !ids_list_app, !ids_list_cons.
+        generalize (ids_list pre) (ids_list post) (ids lft) (ids rgt) (ids ch) Hperm.
+        intros a b d1 d2 d3 Hp. perm_lia.
+      - repeat constructor; lia. }
+    assert (Hsh2 : shape order (plug C N2)).
+    { apply Hrep.
+      - unfold N2. rewrite erase_node, erase_cs_app, !erase_cs_cons. exact Hok2.
+      - unfold N2. rewrite !links_node, !links_list_app, !links_list_cons.
+        rewrite (app_assoc (leaf_links lft)). apply links_equiv_ctx. exact Hlk. }
+    destruct (ltb (key_of o) rs) eqn:Elt.
+    + assert (Hwl : wfc (mkcf p pre sep' ((rs, rgt) :: post) :: C) lft (S fr)) by (apply wfc_node; exact HwN).
+      rewrite <- Hnth, <- Hnl in H.
+      eapply (ins_descend_ctx order o (mkcf p pre sep' ((rs, rgt) :: post) :: C) lft); [| exact Hwl | | | exact H].
+      * rewrite plug_mkcf. exact Hsh2.
+      * rewrite <- EraseOps.icount_erase. exact Hcl2.
+      * cbn [cbounds csep cpost mkcf hi_of]. exact Hrng.
+    + unfold mk in H. inversion H; subst; clear H. cbn [otr]. exact Hsh2.
+  - (* no split *)
+    rewrite set_nth_app, Hupd in H. cbn [bind] in H.
+    destruct (child_nosplit2 K V ltb HS order _ d _ _ _ _ _ Hok Hk Hidx Hpost' sep' Esep') as (Hok2 & Hrng).
+    assert (Hsh2 : shape order (plug C (INode p (pre ++ (sep', ch) :: post)))).
+    { apply Hrep.
+      - rewrite erase_node, erase_cs_app, !erase_cs_cons. exact Hok2.
+      - rewrite !links_node, !links_list_app, !links_list_cons. apply links_equiv_refl. }
+    assert (Hwc : wfc (mkcf p pre sep' post :: C) ch fr).
+    { apply wfc_node. eapply wfc_same; [exact Hw|]. apply ids_sep_irrel. }
+    rewrite <- Hnth in H.
+    eapply (ins_descend_ctx order o (mkcf p pre sep' post :: C) ch); [| exact Hwc | | | exact H].
+    + rewrite plug_mkcf. exact Hsh2.
+    + unfold isplit in Hisp. destruct (icount ch <? order) eqn:E; [apply Nat.ltb_lt in E; exact E|].
+      destruct ch; discriminate Hisp.
+    + cbn [cbounds csep cpost mkcf]. rewrite <- (hi_of_erase K V). exact Hrng.
+Qed.
+
 (* ------------------------------------------------------------------------------------------------ *)
 (* WantRoot (Insert / Update)                                                                         *)
 (* ------------------------------------------------------------------------------------------------ *)
